@@ -215,6 +215,13 @@ def apply_pre(s, pre):
             list(s.copy().ticks(op[1]))
         elif op[0] == "ticks":
             list(s.ticks(op[1]))
+        elif op[0] == "other-ticks":
+            # an unrelated scale of the same kind, alive at the same time, is given its own domain and asked for ticks (with the count the
+            # judged call will use)
+            import check_time as T
+            o = type(s)()
+            o.domain([op[1], op[2]] if not op[4] else [T.to_dt(op[1]), T.to_dt(op[2])])
+            list(o.ticks(op[3])) if op[3] is not None else list(o.ticks())
 
 
 # -------------------------------------------------------------------------------------------- C13
@@ -300,7 +307,7 @@ def body_c14(tier, seed, rep, only_prop=False, scale=1):
             # before the judged call, COPIES of the scale are used (made nice with another count, given another domain, asked for ticks):
             # what a copy does is its own business
             meta["pre"] = [rng.choice([("copy-nice", rng.choice([2, 5, 1, 20])), ("copy-domain", a - 3.5, b * 2 + 1), ("copy-ticks", rng.choice([3, 10])),
-                                       ("ticks", rng.choice([3, 10]))]) for _ in range(rng.choice([1, 1, 2]))]
+                                       ("ticks", rng.choice([3, 10])), ("other-ticks", a * 1000 - 7, b * 1000 + 991, m, False)]) for _ in range(rng.choice([1, 1, 2]))]
         try:
             with time_limit(10):
                 s = LinearScale().domain([a, b])
@@ -319,7 +326,9 @@ def body_c14(tier, seed, rep, only_prop=False, scale=1):
         m = rng.choice([None, None, 10, 2, 3, 5, 7, 12, 20, 50])
         meta = {"kind": "tnice", "d0": d0, "d1": d1, "m": m}
         if rng.random() < 0.15:
-            meta["pre"] = [rng.choice([("copy-nice", rng.choice([2, 5, 20])), ("copy-ticks", rng.choice([3, 10])), ("ticks", rng.choice([3, 10]))]) for _ in range(rng.choice([1, 1, 2]))]
+            od = T.gen_domain(rng)
+            meta["pre"] = [rng.choice([("copy-nice", rng.choice([2, 5, 20])), ("copy-ticks", rng.choice([3, 10])), ("ticks", rng.choice([3, 10])),
+                                       ("other-ticks", od[0], od[1], m, True), ("other-ticks", od[0], od[1], m, True)]) for _ in range(rng.choice([1, 1, 2]))]
         try:
             with time_limit(10):
                 s = TimeScale().domain([T.to_dt(d0), T.to_dt(d1)])
